@@ -443,4 +443,122 @@ theorem forall2_left_mem {α β : Type} {R : α → β → Prop} {l1 : List α} 
     · exact ⟨_, h⟩
     · exact ih ha
 
+/-! ### Every sequent is exported at most once -/
+
+theorem lookup_cons (same : Seq → Seq → Bool) (k : Seq) (v : ItemId) (tbl : List (Seq × ItemId)) (th : Seq) :
+    lookup same ((k, v) :: tbl) th = if same k th then some v else lookup same tbl th := by
+  unfold lookup
+  by_cases h : same k th = true <;> simp [List.find?_cons, h]
+
+/-- invariant of `rec` for uniqueness: every line's sequent is a key of the dictionary, the stated
+sequents are pairwise different, every key is the sequent of a line -/
+structure UInv (st : St) : Prop where
+  keyed : ∀ it ∈ st.items, lookup sameStruct st.tbl it.th ≠ none
+  nodup : (st.items.map (·.th)).Nodup
+
+mutual
+theorem exportRec_unique (pfx : ItemId) :
+    ∀ (pt : PT) (st st' : St), exportRec sameStruct pfx pt st = .ok st' → pt.noRepeat = true → UInv st →
+      UInv st' ∧ (∀ it ∈ st'.items, it ∈ st.items ∨ it.th ∈ pt.nodeSeqs)
+  | .atom _ _, _, _, h, _, _ => by simp [exportRec] at h
+  | .node rule args prevs th, st, st', h, hn, hinv => by
+    simp only [exportRec] at h
+    cases hlk : lookup sameStruct st.tbl th with
+    | some id => simp [hlk] at h
+    | none =>
+      simp only [hlk] at h
+      cases hp : exportPrevs sameStruct pfx prevs st with
+      | error e => simp [hp] at h
+      | ok r =>
+        obtain ⟨ids, st1⟩ := r
+        simp only [hp, Except.ok.injEq] at h
+        subst h
+        simp only [PT.noRepeat, Bool.and_eq_true, Bool.not_eq_true', List.contains_eq_mem,
+          decide_eq_false_iff_not] at hn
+        obtain ⟨hinv1, hnew⟩ := exportPrevs_unique pfx prevs st ids st1 hp hn.2 hinv
+        have hfresh : ∀ it ∈ st1.items, it.th ≠ th := by
+          intro it hit heq
+          rcases hnew it hit with hold | hdesc
+          · exact hinv.keyed it hold (by rw [heq]; exact hlk)
+          · exact hn.1 (by rw [← heq]; exact hdesc)
+        refine ⟨⟨?_, ?_⟩, ?_⟩
+        · intro it hit
+          simp only [List.mem_append, List.mem_singleton] at hit
+          rw [lookup_cons]
+          rcases hit with hit | rfl
+          · by_cases hs : sameStruct th it.th = true
+            · simp [hs]
+            · simp only [hs, Bool.false_eq_true, if_false]; exact hinv1.keyed it hit
+          · simp [sameStruct]
+        · simp only [List.map_append, List.map_cons, List.map_nil]
+          rw [List.nodup_append]
+          refine ⟨hinv1.nodup, by simp, ?_⟩
+          intro a ha b hb
+          simp only [List.mem_singleton] at hb
+          subst hb
+          obtain ⟨it, hit, rfl⟩ := List.mem_map.mp ha
+          exact hfresh it hit
+        · intro it hit
+          simp only [List.mem_append, List.mem_singleton] at hit
+          rcases hit with hit | rfl
+          · rcases hnew it hit with hold | hdesc
+            · exact Or.inl hold
+            · exact Or.inr (by simp [PT.nodeSeqs, hdesc])
+          · exact Or.inr (by simp [PT.nodeSeqs])
+
+theorem exportPrevs_unique (pfx : ItemId) :
+    ∀ (ps : List PT) (st : St) (ids : List ItemId) (st' : St),
+      exportPrevs sameStruct pfx ps st = .ok (ids, st') → noRepeatList ps = true → UInv st →
+      UInv st' ∧ (∀ it ∈ st'.items, it ∈ st.items ∨ it.th ∈ nodeSeqsList ps)
+  | [], st, ids, st', h, _, hinv => by
+    simp only [exportPrevs, Except.ok.injEq, Prod.mk.injEq] at h
+    rw [← h.2]
+    exact ⟨hinv, fun it hit => Or.inl hit⟩
+  | .atom id th :: ps, st, ids, st', h, hn, hinv => by
+    simp only [exportPrevs] at h
+    cases hp : exportPrevs sameStruct pfx ps st with
+    | error e => simp [hp] at h
+    | ok r =>
+      obtain ⟨ids1, st1⟩ := r
+      simp only [hp, Except.ok.injEq, Prod.mk.injEq] at h
+      rw [← h.2]
+      simp only [noRepeatList, PT.noRepeat, Bool.true_and] at hn
+      obtain ⟨h1, h2⟩ := exportPrevs_unique pfx ps st ids1 st1 hp hn hinv
+      exact ⟨h1, fun it hit => (h2 it hit).imp (fun x => x) (by simp [nodeSeqsList, PT.nodeSeqs])⟩
+  | .node r a qs th :: ps, st, ids, st', h, hn, hinv => by
+    simp only [noRepeatList, Bool.and_eq_true] at hn
+    simp only [exportPrevs] at h
+    cases hlk : lookup sameStruct st.tbl th with
+    | some id0 =>
+      simp only [hlk] at h
+      cases hp : exportPrevs sameStruct pfx ps st with
+      | error e => simp [hp] at h
+      | ok r =>
+        obtain ⟨ids1, st1⟩ := r
+        simp only [hp, Except.ok.injEq, Prod.mk.injEq] at h
+        rw [← h.2]
+        obtain ⟨h1, h2⟩ := exportPrevs_unique pfx ps st ids1 st1 hp hn.2 hinv
+        exact ⟨h1, fun it hit => (h2 it hit).imp (fun x => x) (fun hh => by simp [nodeSeqsList, hh])⟩
+    | none =>
+      simp only [hlk] at h
+      cases hr : exportRec sameStruct pfx (.node r a qs th) st with
+      | error e => simp [hr] at h
+      | ok st1 =>
+        simp only [hr] at h
+        cases hp : exportPrevs sameStruct pfx ps st1 with
+        | error e => simp [hp] at h
+        | ok r2 =>
+          obtain ⟨ids2, st2⟩ := r2
+          simp only [hp, Except.ok.injEq, Prod.mk.injEq] at h
+          rw [← h.2]
+          obtain ⟨g1, g2⟩ := exportRec_unique pfx (.node r a qs th) st st1 hr hn.1 hinv
+          obtain ⟨h1, h2⟩ := exportPrevs_unique pfx ps st1 ids2 st2 hp hn.2 g1
+          refine ⟨h1, fun it hit => ?_⟩
+          rcases h2 it hit with hold | hdesc
+          · rcases g2 it hold with hold' | hd'
+            · exact Or.inl hold'
+            · exact Or.inr (by simp [nodeSeqsList, hd'])
+          · exact Or.inr (by simp [nodeSeqsList, hdesc])
+end
+
 end Holpy.C04
